@@ -52,41 +52,144 @@ def check(ctx):
             if isinstance(c.func, ast.Attribute) and c.func.attr == "_get_join_indices":
                 sites.append((fn, c))
     ctx.count("_get_join_indices call sites", len(sites), 4)
+    if not dcs:
+        raise AnalysisError("anchor vanished: key->row dict comprehension in _get_join_indices")
+    # ---- the frame the dict enumerates and the key-name list that labels its key columns, inside the builder
+    dc = dcs[0]
+    FR = None
+    it = dc.generators[0].iter
+    for n in ast.walk(it):
+        if isinstance(n, ast.Attribute) and n.attr == "nrow" and isinstance(n.value, ast.Name):
+            FR = n.value.id
+    if FR is None:
+        raise AnalysisError("cannot identify the frame the key->row dict of _get_join_indices is built over")
+    KEYS = None
+    for n in body_nodes(gji.node):
+        if isinstance(n, (ast.GeneratorExp, ast.ListComp)) and len(n.generators) == 1 and isinstance(n.generators[0].iter, ast.Name) \
+                and isinstance(n.generators[0].target, ast.Name) and not n.generators[0].ifs \
+                and pmatch(f"{FR}[{n.generators[0].target.id}]", n.elt) is not None:
+            KEYS = n.generators[0].iter.id
+    if KEYS is None:
+        raise AnalysisError("cannot identify the key-name list of the right-hand frame in _get_join_indices")
+
+    def chain_state(value, keys):
+        """Transitions a method chain applies: drop_na(*keys) -> NONMISSING, unique(*keys) -> UNIQUE; (state, base expr)."""
+        ch, base = method_chain(value)
+        st = set()
+        for meth, args in ch:
+            if meth == "drop_na" and args == [f"*{keys}"]:
+                st.add("NONMISSING")
+            elif meth == "unique" and args == [f"*{keys}"]:
+                st.add("UNIQUE")
+            elif meth in ("copy", "deepcopy"):
+                pass
+            else:
+                return None, base       # an operation the typestate does not know: state lost
+        return st, base
+
+    def state_of(fn, name, at, keys, chain_txt, depth=0):
+        """(state, open) -- open is True when some path leaves the frame as the function's own parameter."""
+        states, opened = [], False
+        for d in defs_reaching(fn, name, at):
+            if d.kind == "param":
+                opened = True
+                states.append(set())
+                chain_txt.append(f"{fn.name}: parameter {name} as given")
+            elif d.kind == "assign" and d.value is not None and isinstance(d.target, ast.Name):
+                st, base = chain_state(d.value, keys)
+                chain_txt.append(f"{fn.name}: {name} = {norm(d.value)}")
+                if st is None:
+                    states.append(set())
+                elif isinstance(base, ast.Name) and depth < 4:
+                    st0, op0 = state_of(fn, base.id, d.node.ast, keys, chain_txt, depth + 1)
+                    opened = opened or op0
+                    states.append(st | st0)
+                else:
+                    states.append(st)
+            else:
+                states.append(set())
+                chain_txt.append(f"{fn.name}: {name} defined by {d.kind}")
+        out = set.intersection(*states) if states else set()
+        return out, opened
+
+    def formal_index(fn, pname):
+        ps = [p for p in fn.params if p not in ("self", "cls")]
+        return ps.index(pname) if pname in ps else None
+
+    inner_txt = []
+    st_in, open_in = state_of(gji, FR, dc, KEYS, inner_txt)
+    # is the key-name list the builder's own parameter, or computed inside (then call sites cannot name it)
+    keys_is_param = all(d.kind == "param" for d in defs_reaching(gji, KEYS, dc))
+    fr_idx = formal_index(gji, FR)
+    k_idx = formal_index(gji, KEYS)
     states = {}
     for fn, c in sites:
-        arg = c.args[0] if c.args else None
-        by2 = norm(c.args[2]) if len(c.args) > 2 else None
-        state = set()
-        chain_txt = []
-        if isinstance(arg, ast.Name):
-            for d in defs_reaching(fn, arg.id, c):
-                if d.kind == "assign" and d.value is not None:
-                    ch, base = method_chain(d.value)
-                    chain_txt.append(norm(d.value))
-                    st = set()
-                    for meth, args in ch:
-                        if meth == "drop_na" and args == [f"*{by2}"]:
-                            st.add("NONMISSING")
-                        if meth == "unique" and args == [f"*{by2}"]:
-                            st.add("UNIQUE")
-                    state = st if not state else (state & st)
-                elif d.kind == "param":
-                    state = set() if not state else state & set()
-                    chain_txt.append(f"parameter {arg.id} as given")
+        chain_txt = list(inner_txt)
+        state = set(st_in)
+        if open_in:
+            arg = c.args[fr_idx] if fr_idx is not None and fr_idx < len(c.args) else None
+            karg = c.args[k_idx] if (keys_is_param and k_idx is not None and k_idx < len(c.args)) else None
+            if isinstance(arg, ast.Name) and (isinstance(karg, ast.Name) or not keys_is_param):
+                st_c, _ = state_of(fn, arg.id, c, karg.id if karg is not None else KEYS, chain_txt)
+                state |= st_c
         states[fn.name] = state
         ok = {"NONMISSING", "UNIQUE"} <= state
         miss = sorted({"NONMISSING", "UNIQUE"} - state)
         ctx.ob("TS-other", fn, norm(c), c, ok,
-               "right-hand frame is drop_na(*by2).unique(*by2): first match per key, missing keys never match" if ok else
+               "the frame the key->row dict is built over is drop_na(*keys).unique(*keys): first match per key, missing keys never match" if ok else
                f"right-hand frame reaches the key->row dict in state {sorted(state) or ['RAW']} (missing {miss}): "
                + ("rows whose key is missing can match; " if "NONMISSING" in miss else "")
                + ("with duplicate right keys the LAST duplicate wins instead of the first; " if "UNIQUE" in miss else "")
                + "and the four joins no longer agree (semi_join and anti_join must partition the left frame)",
                chain=chain_txt, clause="rows with a missing key never match; first right row; semi/anti partition")
-    same = len({frozenset(s) for s in states.values()}) == 1
+    same = len({frozenset(s_) for s_ in states.values()}) == 1
     ctx.ob("TS-other", gji, "the four joins normalise the right-hand frame identically", gji.node, same,
            "all four call sites agree" if same else f"call sites disagree: { {k: sorted(v) for k, v in states.items()} }",
            nontrivial=False, clause="semi_join and anti_join together partition the left frame")
+    # ---- identity: the rows `src` counts are rows of the frame the dict was built over; a join that takes right-hand
+    # values with src must index THAT frame -- the caller's own variable when the builder does not rebind it, else the
+    # frame the builder hands back.
+    rebinds = any(d.kind != "param" for d in defs_reaching(gji, FR, dc))
+    ret_idx = None
+    for r in [n for n in body_nodes(gji.node) if isinstance(n, ast.Return) and n.value is not None]:
+        elts = r.value.elts if isinstance(r.value, ast.Tuple) else [r.value]
+        for k_, e in enumerate(elts):
+            if isinstance(e, ast.Name) and e.id == FR and \
+                    {id(d.node) for d in defs_reaching(gji, FR, r)} == {id(d.node) for d in defs_reaching(gji, FR, dc)}:
+                ret_idx = k_
+    n_cons = 0
+    for fn, c in sites:
+        stmt = fn.module.parent.get(c)
+        unpack = stmt.targets[0] if isinstance(stmt, ast.Assign) else None
+        bound = [e.id for e in unpack.elts if isinstance(e, ast.Name)] if isinstance(unpack, ast.Tuple) else \
+            ([unpack.id] if isinstance(unpack, ast.Name) else [])
+        for loop in [n for n in body_nodes(fn.node) if isinstance(n, ast.For)]:
+            b = pmatch("_X.items()", loop.iter)
+            if b is None or not isinstance(b["_X"], ast.Name) or b["_X"].id == fn.params[0]:
+                continue
+            X = b["_X"].id
+            uses_idx = any(isinstance(n, ast.Subscript) and any(isinstance(m, ast.Name) and m.id in bound for m in ast.walk(n.slice))
+                           for s_ in loop.body for n in ast.walk(s_))
+            if not uses_idx:
+                continue
+            n_cons += 1
+            xdefs = {id(d.node) for d in defs_reaching(fn, X, loop)}
+            if not rebinds:
+                arg = c.args[fr_idx] if fr_idx is not None and fr_idx < len(c.args) else None
+                okc = isinstance(arg, ast.Name) and arg.id == X and xdefs == {id(d.node) for d in defs_reaching(fn, X, c)}
+                why = (f"{X} is the frame handed to _get_join_indices, unchanged since" if okc else
+                       f"the rows numbered by the index come from {norm(arg) if arg is not None else '?'} but values are taken from {X}")
+            else:
+                cn = __import__("sa.facts", fromlist=["cfg_node_of"]).cfg_node_of(fn, c)
+                okc = ret_idx is not None and isinstance(unpack, ast.Tuple) and ret_idx < len(unpack.elts) \
+                    and isinstance(unpack.elts[ret_idx], ast.Name) and unpack.elts[ret_idx].id == X and xdefs == {id(cn)}
+                why = (f"{X} is the reduced frame returned by _get_join_indices" if okc else
+                       f"_get_join_indices numbers the rows of its own reduced copy of the right-hand frame (drop_na/unique applied "
+                       f"inside), but {fn.name} takes the values from its own unreduced {X}: whenever a right row with a missing or "
+                       f"duplicate key precedes the match, src points at a different row and values of an unequal key are attached")
+            ctx.ob("TS-other", fn, f"values taken from {X} with the row numbers of the index", loop, okc, why,
+                   clause="extended with the columns of the first right row whose key columns all equal its own")
+    ctx.count("joins taking right-hand values by row number", n_cons, 2)
     ok = needs_unique and any("range(" in norm(d.generators[0].iter) and "nrow" in norm(d.generators[0].iter) for d in dcs)
     ctx.ob("TS-other", gji, norm(dcs[0]) if dcs else "lookup dict", dcs[0] if dcs else gji.node, ok,
            "lookup maps each key tuple to its row number over all rows of the right-hand frame" if ok else
@@ -120,8 +223,21 @@ def check(ctx):
               and isinstance(n.value, ast.Call) and isinstance(n.value.func, ast.Attribute) and n.value.func.attr == "_get_join_indices"]
     ok = False
     desc = "found, src = self._get_join_indices(...)"
-    if unpack and len(unpack[0].targets[0].elts) == 2:
-        F, SRC = (text(e) for e in unpack[0].targets[0].elts)
+    # positions of `found` and `src` in the tuple the index builder returns
+    pos_f = pos_s = None
+    for r_ in [n for n in body_nodes(gji.node) if isinstance(n, ast.Return) and isinstance(n.value, ast.Tuple)]:
+        for k_, e in enumerate(r_.value.elts):
+            if not isinstance(e, ast.Name):
+                continue
+            dv = [d.value for d in defs_reaching(gji, e.id, r_) if d.value is not None]
+            if dv and all(isinstance(v, ast.Call) and repo.dotted(gji, v.func) in ("numpy.where", "numpy.flatnonzero", "numpy.nonzero") for v in dv):
+                pos_f = k_
+                inner = {m.id for v in dv for m in ast.walk(v) if isinstance(m, ast.Name)}
+                for k2, e2 in enumerate(r_.value.elts):
+                    if isinstance(e2, ast.Name) and e2.id in inner and k2 != k_:
+                        pos_s = k2
+    if unpack and pos_f is not None and pos_s is not None and len(unpack[0].targets[0].elts) > max(pos_f, pos_s):
+        F, SRC = text(unpack[0].targets[0].elts[pos_f]), text(unpack[0].targets[0].elts[pos_s])
         own_iter = f"{inn.params[0]}.items()"
         idx_self = {norm(row_index_of(y.value.elts[1])[1]) for y in ys_i
                     if enclosing_loop(inn, y) is not None and norm(enclosing_loop(inn, y).iter) == own_iter
@@ -265,6 +381,20 @@ def check(ctx):
             from ..forms import contributions
             cs = contributions(fj, star[0].value.id, c)
             srcs = {norm(x["iter"]) for x in cs if x["iter"] is not None}
+            # a contributed local name stands for whatever reaches it (item = tuple(reversed(item)) under an if)
+            cs2 = []
+            for x in cs:
+                v = x["value"]
+                if isinstance(v, ast.Name):
+                    ds = defs_reaching(fj, v.id, x["node"])
+                    if ds and all(d.kind in ("assign", "for") for d in ds):
+                        for d in ds:
+                            y = dict(x)
+                            y["value"] = d.value if d.kind == "assign" else v
+                            cs2.append(y)
+                        continue
+                cs2.append(x)
+            cs = cs2
             vals = [norm(x["value"]) for x in cs if x["value"] is not None]
             # every element comes from iterating by; tuple elements are reversed, plain names kept
             if cs and srcs == {BY} and any("reversed(" in v or "[::-1]" in v for v in vals) \
@@ -285,3 +415,6 @@ def check(ctx):
     n = grd_empty(ctx, [repo.fn(f"{DF}.{j}") for j in JOINS + ("full_join",)], "all joins succeed when either side is empty",
                   only=lambda f: f.module.name == "dataiter.data_frame")
     ctx.note(f"{n} partial-operation site(s) reachable from the joins inside data_frame.py")
+    from .shared import grd_broadcast
+    nb = grd_broadcast(ctx, [repo.fn(f"{DF}.{j}") for j in JOINS + ("full_join",)], "all joins succeed when either side is empty")
+    ctx.note(f"{nb} single-element broadcast site(s) reachable from the joins")
